@@ -1069,12 +1069,18 @@ func (m *Manager) ConvertToWatchingOnly(ns walletdb.ReadWriteBucket) error {
 	m.mtx.Lock()
 	defer m.mtx.Unlock()
 
-	// Exit now if the manager is already watching-only.
-	if m.WatchOnly() {
+	// Exit now if the manager and its database are already watching-only.
+	// The in-memory flag alone can't be relied upon here: it is set before
+	// the caller's database transaction commits, so after a conversion
+	// that was rolled back it is ahead of the database, and a retry must
+	// still do the work.
+	watchingOnly, err := fetchWatchingOnly(ns)
+	if err != nil {
+		return maybeConvertDbError(err)
+	}
+	if watchingOnly && m.WatchOnly() {
 		return nil
 	}
-
-	var err error
 
 	// Remove all private key material and mark the new database as
 	// watching only.
